@@ -527,8 +527,18 @@ func init() {
 
 func init() {
 	Registry["C15"] = func(c *Ctx) {
-		c.R.Rule = "the C01/C02 history search (13 source edits, 8 workspace pre-state operations, build //... and build //b:top) run by the REAL binary with --load-outputs=minimal; the reference cache model that mode 'all' is checked against (C01/C02) must predict the executed set of every minimal-mode build as well (same commands, same success), every command that executes must observe exactly what a from-scratch build observes of its dependency outputs (//b:top records the bytes, the symlink and the exec bit it reads from //b:app's directory output, which it reaches through //b:app -> alias -> //a:lib; //b:gen runs the restored bin tool), and every output of an executed target equals the from-scratch build. Thorough mixes 'all' and 'minimal' builds inside one history."
+		c.R.Rule = "the C01/C02 history search (13 source edits, 8 workspace pre-state operations, build //... and build //b:top) run by the REAL binary with --load-outputs=minimal; the reference cache model that mode 'all' is checked against (C01/C02) must predict the executed set of every minimal-mode build as well (same commands, same success), every command that executes must observe exactly what a from-scratch build observes of its dependency outputs (//b:top records the bytes, the symlink and the exec bit it reads from //b:app's directory output, which it reaches through //b:app -> alias -> //a:lib; //b:gen runs the restored bin tool), and every output of an executed target equals the from-scratch build. Thorough mixes 'all' and 'minimal' builds inside one history. Second part: the chain workspace x->y->z plus w (output checks) in minimal mode, three no-cache-tag universes, histories of <= 4/5 operations over {edits, grog taint, destroy the checked condition, build}: a target that must run although a result is stored (tainted / no-cache / failing check) must find its dependency outputs, the executed set must equal the reference model of mode all."
 		c.R.Assume("lock-step is realised through the shared reference model: mode 'all' is compared with the model by C01/C02, mode 'minimal' by this check", "commands of the model workspace are deterministic")
+		// second part: taint / no-cache / failing output check / failures under minimal mode
+		defer chainCheck("C15", []string{"C15:"}, 4, 5, func(e *chainEngine, thorough bool) {
+			e.relabelMinimal = true
+			e.universes = []chainState{{Minimal: true}}
+			e.noCache = []string{"", "x", "y"}
+			e.ops = []chainOp{opEditAppend, opEditFirst, opTaintX, opTaintY, markOp("w-destroyed"), opBuild}
+			if thorough {
+				e.ops = append(e.ops, opBuildNoC, markOp("fail-y-exit"))
+			}
+		})(c)
 		histCheck("C15", []string{"C15:"}, 3, 4, func(e *histEngine, thorough bool) {
 			e.preOps = []string{"delete-lib-output", "delete-dist-dir", "modify-lib-output", "chmod-minus-x-tool"}
 			e.flags = []buildFlags{{Pattern: "//...", LoadOutputs: "minimal"}, {Pattern: "//b:top", LoadOutputs: "minimal"}}
